@@ -1,6 +1,6 @@
 (* C04 - concrete stores: the hypotheses of the theorems are satisfiable, and the refutation witnesses. *)
 From Coq Require Import ZArith NArith List Lia Bool.
-From BHS Require Import Work Store Chain ChainSpec StoreProofs ChainInv ChainAdd ChainMain Query QueryProofs QueryAncProofs QueryCaProofs.
+From BHS Require Import Work Store Chain ChainSpec StoreProofs ChainInv ChainAdd ChainMain ChainFields Query QueryProofs QueryAncProofs QueryCaProofs.
 Import ListNotations.
 Open Scope Z_scope.
 
@@ -129,4 +129,22 @@ Proof.
     + apply (walk_reach late_store 4%nat). revert E2. vm_compute. intros E2'. inversion E2'. right. right. right. left. reflexivity.
     + apply (walk_reach late_store 2%nat). revert E2. vm_compute. intros E2'. inversion E2'. right. left. reflexivity.
   - cbv [min_height fold_right]. rewrite H4, H5, H2. vm_compute. reflexivity.
+Qed.
+
+(* ---- store 3: a ZERO-WORK header on the tip (ChainMain.zw_hist: G; A(2) on G; Z(3) on A with work 0).  The positive-work
+        hypothesis of Valid / C01 does not hold for this history, the any-work invariant does (ChainFields.reachable_inv). ---- *)
+Definition zw_store : store := run [] 1 (ex_pl 486604799) zw_hist.
+
+Lemma zw_inv : InvSome zw_store.
+Proof. apply reachable_inv; [discriminate| exact (proj1 C01_zero_work_refuted)]. Qed.
+
+Example ex_any_work :
+  InvSome zw_store /\ regular zw_store 3 /\
+  map id (tips zw_store) = [3]%N /\ option_map id (tip_longest zw_store) = Some 3%N /\
+  res_ids (ancestors zw_store 3 1) = Some [3; 2; 1]%N /\
+  cres_id (common_ancestor zw_store [3; 2]%N) = Some 1%N.
+Proof.
+  split; [exact zw_inv|]. split.
+  - eapply connected_regular; [apply inv_wf, zw_inv| vm_compute; reflexivity| reflexivity].
+  - vm_compute. repeat split; reflexivity.
 Qed.
